@@ -8,7 +8,7 @@ specfn('tri_rank', "lambda r, c, n: r*n - (r*(r+1))//2 + c", sig=(['int', 'int',
        # derived (division-free) form, proved from the definition in lemmas/l_index.py: r(r+1) is even
        axioms=["forall(lambda r, c, n: 2*tri_rank(r, c, n) == 2*r*n - r*(r+1) + 2*c)"])
 
-contract(U + '_size_including_this_row', props=['C11'],
+contract(U + '_size_including_this_row', props=['C11'], ghost={'reveal': ['tri_rank']},
          params=dict(r='int', uncompressed_size='int'), returns='real',
          requires=["0 <= r", "r < uncompressed_size", "uncompressed_size < 67108864"],
          # number of upper-triangle elements in rows 0..r  (a float in the code: r*(r+1)/2 is exact in IEEE
@@ -20,7 +20,7 @@ contract(U + '_elements_in_row_after_target', props=['C11'],
          params=dict(c='int', full_row_length='int'), returns='int',
          ensures=["result == full_row_length - 1 - c"])
 
-contract(U + '_compressed_index', props=['C11', 'C02'],
+contract(U + '_compressed_index', props=['C11', 'C02'], ghost={'reveal': ['tri_rank']},
          params=dict(row='int', column='int', uncompressed_size='int'), returns='int',
          requires=["0 <= row", "column < uncompressed_size", "uncompressed_size < 67108864"],
          raises={'IndexError': "column < row"},
